@@ -1035,7 +1035,7 @@ def index_case(ctx, rng):
 # ----------------------------------------------------------------------
 
 def run(ctx):
-    for idx in ctx.cases(quick=700, thorough=3000):
+    for idx in ctx.cases(quick=700, thorough=2400):
         rng = ctx.rng(idx)
         ctx.reseed_global(idx)
         if idx % 5 < 2:
